@@ -1461,4 +1461,188 @@ theorem reachable_wf_aux {h : Heap} (r : Reachable h) : WF h := by
   | wrapTyped h v _ ih => exact wrapTyped_wf h v ih
   | append h acc args _ hids ih => exact (append_wf_any args acc h ih hids).1
 
+/-! ### the content law with aliasing: arguments that end in the accumulator's last cell are read after it has grown -/
+
+theorem Chain.mem_none_eq_tail {h : Heap} {a e x : Nat} {l : List Nat} (c : Chain h a l e) (hx : x ∈ l)
+    (hn : nextOf h x = none) : x = e := by
+  induction c with
+  | last id _ => simpa using hx
+  | step id j l e hj _ ih =>
+    rcases List.mem_cons.mp hx with rfl | hx
+    · rw [hn] at hj; cases hj
+    · exact ih hx
+
+/-- what the argument `a` contributes when `A` has already been appended behind the cell `e0` -/
+def contrib (h : Heap) (e0 : Nat) (A : List Item) : Val → List Item
+  | .ref id' => if e0 ∈ chain h (fuelOf h) id' then items h id' ++ A else items h id'
+  | v => argItems h v
+
+/-- everything that is appended behind `e0` by the arguments, in order (`A` = appended so far) -/
+def aliasItems (h : Heap) (e0 : Nat) : List Item → List Val → List Item
+  | A, [] => A
+  | A, a :: as => aliasItems h e0 (A ++ contrib h e0 A a) as
+
+/-- loop invariant relating the current heap `hc` (cursor `ec`, cells `Ls` appended so far with content `A`) to the
+    heap `h` at the call -/
+structure Prog (h : Heap) (e0 : Nat) (hc : Heap) (ec : Nat) (Ls : List Nat) (A : List Item) : Prop where
+  wf : WF hc
+  grow : h.size ≤ hc.size
+  chains : ∀ a la ea, a < h.size → Chain h a la ea →
+    (ea = e0 → Chain hc a (la ++ Ls) ec) ∧ (ea ≠ e0 → Chain hc a la ea)
+  vis : ∀ i, i < h.size → (hc[i]?).bind visible = (h[i]?).bind visible
+  fresh : ∀ i ∈ Ls, h.size ≤ i ∧ i < hc.size
+  its : Ls.filterMap (fun i => (hc[i]?).bind visible) = A
+  cur : (Ls = [] ∧ ec = e0) ∨ (Ls ≠ [] ∧ h.size ≤ ec)
+  ecLt : ec < hc.size
+  ecNonempty : isEmpty hc ec = false
+
+theorem contrib_eq {h : Heap} {e0 : Nat} {hc : Heap} {ec : Nat} {Ls : List Nat} {A : List Item}
+    (P : Prog h e0 hc ec Ls A) (hwf : WF h) (he0 : nextOf h e0 = none) (a : Val)
+    (hid : ∀ id, a = .ref id → id < h.size) : argItems hc a = contrib h e0 A a := by
+  cases a with
+  | nilIface => rfl
+  | typedNil => rfl
+  | foreignNil => rfl
+  | plain u m => rfl
+  | fwrap u m inner => rfl
+  | ref id' =>
+    have hlt := hid id' rfl
+    obtain ⟨c, hm⟩ := hwf.chain_spec hlt
+    have hgrow := P.grow
+    have hvis : (chain h (fuelOf h) id').filterMap (fun i => (hc[i]?).bind visible) = items h id' := by
+      unfold items itemsAt
+      apply filterMap_congr'
+      intro i hi
+      exact P.vis i (hm i hi).2
+    by_cases ht : tailOf h (fuelOf h) id' = e0
+    · have hmem : e0 ∈ chain h (fuelOf h) id' := by rw [← ht]; exact c.tail_mem
+      have c' := (P.chains id' _ _ hlt c).1 ht
+      simp only [argItems, contrib, hmem, if_true]
+      rw [items_eq_of_chain P.wf c' (by omega), List.filterMap_append, hvis, P.its]
+    · have hmem : e0 ∉ chain h (fuelOf h) id' := fun hx => ht (c.mem_none_eq_tail hx he0).symm
+      have c' := (P.chains id' _ _ hlt c).2 ht
+      simp only [argItems, contrib, hmem, if_false]
+      rw [items_eq_of_chain P.wf c' (by omega), hvis]
+
+theorem loop_alias (h : Heap) (e0 r : Nat) (hwf : WF h) (he0 : nextOf h e0 = none) :
+    ∀ (args : List Val) (hc : Heap) (ec : Nat) (Ls : List Nat) (A : List Item) (log : List Nat),
+    Prog h e0 hc ec Ls A → (∀ id, Val.ref id ∈ args → id < h.size) →
+    (appendLoop hc (some r) (some ec) log args).2.1 = some r ∧
+    ∃ Ls' ec', Prog h e0 (appendLoop hc (some r) (some ec) log args).1 ec' Ls' (aliasItems h e0 A args) := by
+  intro args
+  induction args with
+  | nil => intro hc ec Ls A log P _; exact ⟨rfl, Ls, ec, P⟩
+  | cons a as ih =>
+    intro hc ec Ls A log P hargs
+    have hargs' : ∀ id, Val.ref id ∈ as → id < h.size := fun id hid => hargs id (by simp [hid])
+    have hgrow := P.grow
+    have hida : ∀ id, a = .ref id → id < h.size := fun id ha => hargs id (by simp [ha])
+    have hce := contrib_eq P hwf he0 a hida
+    rcases argNode_spec hc a P.wf (fun id ha => by have := hida id ha; omega) with ⟨hsk, hit⟩ | ⟨h1, n, w, lb, e', hb, B⟩
+    · have hun : appendLoop hc (some r) (some ec) log (a :: as) = appendLoop hc (some r) (some ec) log as := by
+        simp only [appendLoop, hsk]
+      rw [hun]
+      have hA : aliasItems h e0 A (a :: as) = aliasItems h e0 A as := by
+        simp only [aliasItems, ← hce, hit, List.append_nil]
+      rw [hA]
+      exact ih hc ec Ls A log P hargs'
+    · have hg1 := B.grow
+      have hecLt := P.ecLt
+      have hn : hc.size ≤ n ∧ n < h1.size := B.fresh n B.chain.head_mem
+      have heB : ec ∉ lb := fun hx => by have := (B.fresh ec hx).1; omega
+      have hsz2 : (setNext h1 ec n).size = h1.size := setNext_size _ _ _
+      have hwf2 : WF (setNext h1 ec n) := WF_setNext h1 ec n B.wf (by omega) (by omega) hn.2 B.headNonempty
+      have hoth : ∀ i ∈ lb, (setNext h1 ec n)[i]? = h1[i]? :=
+        fun i hi => setNext_other h1 ec n i (fun x => heB (by rw [← x]; exact hi))
+      have cb2 : Chain (setNext h1 ec n) n lb e' := B.chain.congr hoth
+      have hcur : tailOf (setNext h1 ec n) (fuelOf (setNext h1 ec n)) n = e' :=
+        ((cb2.bounds hwf2 (by rw [hsz2]; exact hn.2)).2.2.2).symm
+      have hun : appendLoop hc (some r) (some ec) log (a :: as) =
+          appendLoop (setNext h1 ec n) (some r) (some e') (log ++ w ++ [ec]) as := by
+        simp only [appendLoop, hb, hcur]
+      rw [hun]
+      have hA : aliasItems h e0 A (a :: as) = aliasItems h e0 (A ++ contrib h e0 A a) as := rfl
+      rw [hA]
+      have he'f := B.fresh e' B.chain.tail_mem
+      have hec1 : isEmpty h1 ec = false := by rw [isEmpty_congr hc h1 ec (B.frame ec hecLt)]; exact P.ecNonempty
+      have hvis_ec : ((setNext h1 ec n)[ec]?).bind visible = (hc[ec]?).bind visible := by
+        rw [visible_setNext h1 ec n (by omega) hec1, B.frame ec hecLt]
+      have hcell : ∀ i, i < hc.size → ((setNext h1 ec n)[i]?).bind visible = (hc[i]?).bind visible := by
+        intro i hi
+        by_cases hie : i = ec
+        · rw [hie]; exact hvis_ec
+        · rw [setNext_other h1 ec n i hie, B.frame i hi]
+      have P' : Prog h e0 (setNext h1 ec n) e' (Ls ++ lb) (A ++ contrib h e0 A a) := by
+        refine ⟨hwf2, by rw [hsz2]; omega, ?_, ?_, ?_, ?_, ?_, by rw [hsz2]; exact he'f.2, ?_⟩
+        · intro x la ea hx cx
+          have hla : ∀ i ∈ la, i < h.size := fun i hi => ((cx.bounds hwf hx).2.1 i hi).2
+          refine ⟨fun hea => ?_, fun hea => ?_⟩
+          · have c1 := (P.chains x la ea hx cx).1 hea
+            have c1' : Chain h1 x (la ++ Ls) ec := c1.congr (fun i hi => by
+              apply B.frame i
+              rcases List.mem_append.mp hi with hi | hi
+              · have := hla i hi; omega
+              · exact (P.fresh i hi).2)
+            have := c1'.link B.chain (by omega) heB
+            rw [List.append_assoc] at this
+            exact this
+          · have c1 := (P.chains x la ea hx cx).2 hea
+            have hnot : ec ∉ la := by
+              intro hmem
+              rcases P.cur with ⟨_, hec⟩ | ⟨_, hge⟩
+              · rw [hec] at hmem; exact hea (cx.mem_none_eq_tail hmem he0).symm
+              · have := hla ec hmem; omega
+            exact c1.congr (fun i hi => by
+              rw [setNext_other h1 ec n i (fun x => hnot (by rw [← x]; exact hi)), B.frame i (by have := hla i hi; omega)])
+        · intro i hi
+          rw [hcell i (by omega), P.vis i hi]
+        · intro i hi
+          rw [hsz2]
+          rcases List.mem_append.mp hi with hi | hi
+          · have := P.fresh i hi; omega
+          · have := B.fresh i hi; omega
+        · rw [List.filterMap_append]
+          have e1 : Ls.filterMap (fun i => ((setNext h1 ec n)[i]?).bind visible) = A := by
+            rw [← P.its]
+            apply filterMap_congr'
+            intro i hi
+            exact hcell i (P.fresh i hi).2
+          have e2 : lb.filterMap (fun i => ((setNext h1 ec n)[i]?).bind visible) = contrib h e0 A a := by
+            rw [← hce, ← B.items]
+            apply filterMap_congr'
+            intro i hi
+            rw [hoth i hi]
+          rw [e1, e2]
+        · refine Or.inr ⟨?_, by omega⟩
+          intro hnil
+          exact B.chain.ne_nil (List.append_eq_nil_iff.mp hnil).2
+        · exact cb2.tail_nonempty hwf2 (isEmpty_setNext h1 ec n n B.headNonempty)
+      exact ih (setNext h1 ec n) e' (Ls ++ lb) (A ++ contrib h e0 A a) (log ++ w ++ [ec]) P' hargs'
+
+/-- **content of `Append` with any aliasing** (accumulator a non-empty `*Error`): every argument whose chain ends in the
+    accumulator's last cell is read after the accumulator has grown -/
+theorem append_items_alias (h : Heap) (id : Nat) (args : List Val) (hwf : WF h) (hid : id < h.size)
+    (hne : isEmpty h id = false) (hids : ∀ id', Val.ref id' ∈ args → id' < h.size) :
+    resItems (append h (.ref id) args) = items h id ++ aliasItems h (tailOf h (fuelOf h) id) [] args := by
+  have hun : append h (.ref id) args = appendLoop h (some id) (some (tailOf h (fuelOf h) id)) [] args := by
+    simp [append, hne]
+  rw [hun]
+  obtain ⟨c, hm⟩ := hwf.chain_spec hid
+  have he0 := c.tail_next
+  have P0 : Prog h (tailOf h (fuelOf h) id) h (tailOf h (fuelOf h) id) [] [] := by
+    refine ⟨hwf, Nat.le_refl _, ?_, fun _ _ => rfl, by simp, rfl, Or.inl ⟨rfl, rfl⟩, (hm _ c.tail_mem).2,
+      c.tail_nonempty hwf hne⟩
+    intro a la ea _ ca
+    exact ⟨fun hea => by rw [List.append_nil, ← hea]; exact ca, fun _ => ca⟩
+  obtain ⟨hroot, Ls', ec', P⟩ := loop_alias h _ id hwf he0 args h _ [] [] [] P0 hids
+  have cres := (P.chains id _ _ hid c).1 rfl
+  have hgrow := P.grow
+  simp only [resItems, hroot]
+  rw [items_eq_of_chain P.wf cres (by omega), List.filterMap_append, P.its]
+  congr 1
+  unfold items itemsAt
+  apply filterMap_congr'
+  intro i hi
+  exact P.vis i (hm i hi).2
+
 end Errs
